@@ -117,9 +117,17 @@ class FuncInfo:
         return f"{self.mod.rel}:{self.node.lineno}"
 
 
+_serial = [0]
+
+
 class Model:
-    def __init__(self, sources: dict[str, str] | None = None, root: str | None = None):
+    def __init__(self, sources: dict[str, str] | None = None, root: str | None = None, inline: bool | None = None):
         self.root = root or repo_root()
+        _serial[0] += 1
+        self.serial = (os.getpid(), _serial[0])      # cache key (id() values are reused after garbage collection)
+        if inline is None:
+            inline = os.environ.get('PSA_NO_INLINE') != '1'
+        self.inline_stats = {}
         self.modules: dict[str, ModInfo] = {}
         self.classes: dict[str, ClassInfo] = {}
         self.funcs: dict[str, FuncInfo] = {}
@@ -138,6 +146,14 @@ class Model:
             except SyntaxError as exc:
                 raise AnalysisError(f"{rel} does not parse: {exc}") from exc
             self.modules[rel] = mod
+        for rel, mod in self.modules.items():
+            if inline:
+                from .inline import expand_module
+                others = [m.src for r, m in self.modules.items() if r != rel]
+                try:
+                    self.inline_stats[rel] = expand_module(mod.tree, others)
+                except RecursionError as exc:
+                    raise AnalysisError(f"{rel}: helper expansion did not terminate") from exc
             self._index_module(mod)
         yaml_path = os.path.join(self.root, 'pyplate/pyplate.yaml')
         self.yaml_text = ''
@@ -151,7 +167,8 @@ class Model:
     def _index_module(self, mod: ModInfo):
         for n in ast.walk(mod.tree):
             for c in ast.iter_child_nodes(n):
-                c.parent = n
+                if not isinstance(c, (ast.expr_context, ast.operator, ast.unaryop, ast.boolop, ast.cmpop)):
+                    c.parent = n        # (context / operator nodes are singletons shared by every parsed tree)
         mod.tree.parent = None
         for n in mod.tree.body:
             if isinstance(n, ast.ClassDef):
